@@ -38,8 +38,17 @@ def on_exc(w):
 
 
 def run(tier, seed):
-    return run_r("C09", tier, seed, scenarios(tier), [acc_C09], 2 if tier == "quick" else 3, on_exc, WIT, RULE)
+    from .. import common
+    from ..families import cross_family
+    res = common.Result("C09", tier, seed)
+    run_r("C09", tier, seed, scenarios(tier), [acc_C09], 2 if tier == "quick" else 3, on_exc, WIT, RULE, res=res)
+    x = {k: v for k, v in cross_family(tier).items() if not k.startswith("x:c09:")}
+    run_r("C09", tier, seed, x, [acc_C09], 1 if tier == "quick" else 2, on_exc, [], RULE, res=res, label="cross_family", split=0)
+    return res
 
 
 def replay(payload):
-    return replay_r(scenarios("thorough"), [acc_C09], on_exc, payload)
+    from ..families import cross_family
+    sc = scenarios("thorough")
+    sc.update(cross_family("thorough"))
+    return replay_r(sc, [acc_C09], on_exc, payload)
